@@ -16,6 +16,9 @@ import EzdxfVerif.Lemmas.TextEditorX
 import EzdxfVerif.Lemmas.TextTokens
 import EzdxfVerif.Lemmas.TextLinesSpec
 import EzdxfVerif.Lemmas.TextCtx
+import EzdxfVerif.Lemmas.TextArgFree
+import EzdxfVerif.Lemmas.TextSplit
+import EzdxfVerif.Lemmas.TextScale
 
 namespace EzdxfVerif.Props.C20
 open EzdxfVerif.Text
@@ -336,6 +339,155 @@ theorem fast_eq_slow_iff_no_control (sp : Special) (s : Str) (h : simpleFrag (ca
   exact agree_iff_no_control sp _ h
 
 #guard simpleFrag (caretDecode "a{b}^Jc ^M".toList)
+
+/-! ## final round: the entity level wrappers `MText.plain_text(split, fast)`, `MText.all_columns_plain_text(split)` -/
+
+/-- both modes return for every content -/
+theorem mtext_plain_text_total (sp : Special) (fast : Bool) (s : Str) :
+    (∃ r, mtextPlainText sp fast s = .ok r) ∧ (∃ l, mtextPlainLines sp fast s = .ok l) := by
+  cases fast
+  · obtain ⟨ts, _, h2⟩ := plain_join_flat sp s
+    obtain ⟨ls, hl⟩ := plain_total sp s
+    exact ⟨⟨_, by simpa [mtextPlainText] using h2⟩, ⟨ls, by simpa [mtextPlainLines] using hl⟩⟩
+  · exact ⟨⟨_, rfl⟩, ⟨_, rfl⟩⟩
+
+/-- `mtext.plain_text(fast=True) == mtext.plain_text(fast=False)` for every content of the agreement class; the
+    list forms too when no LF is a word character -/
+theorem mtext_plain_text_modes_agree (sp : Special) (s : Str) (h : agreeClass sp (caretDecode s) = true) :
+    mtextPlainText sp true s = mtextPlainText sp false s ∧
+    ((∀ x ∈ slowItems sp (caretDecode s), x ≠ some '\n') → mtextPlainLines sp true s = mtextPlainLines sp false s) := by
+  constructor
+  · simp only [mtextPlainText, ↓reduceIte, Bool.false_eq_true]
+    rw [fast_eq_slow sp s h]
+  · intro hlf
+    simp only [mtextPlainLines, ↓reduceIte, Bool.false_eq_true]
+    rw [fast_eq_slow_lines sp s h hlf]
+
+private theorem splitNL_ne_nil (r : Str) : splitNL r ≠ [] := by
+  cases r with
+  | nil => simp [splitNL]
+  | cons c t =>
+    simp only [splitNL]
+    split
+    · simp
+    · split <;> simp
+
+/-- `all_columns_plain_text(split=True)` of an entity with (embedded) columns drops exactly one trailing empty
+    line; joined by LF it is the joined form without one trailing LF, otherwise unchanged -/
+theorem all_columns_lines_join (sp : Special) (s : Str) :
+    joinNL (allColumnsPlainLines sp false s) = allColumnsPlainText sp s := by
+  simp only [allColumnsPlainLines, Bool.false_eq_true, ↓reduceIte, allColumnsPlainText]
+  generalize fastPlainMText sp s = t
+  induction t with
+  | nil => rfl
+  | cons c r ih =>
+    simp only [splitNL]
+    split
+    · rename_i hc; subst hc
+      have hne : splitNL r ≠ [] := splitNL_ne_nil r
+      rw [joinNL_cons _ _ hne, ih]; rfl
+    · cases hsr : splitNL r with
+      | nil => exact absurd hsr (splitNL_ne_nil r)
+      | cons p l =>
+        rw [hsr] at ih
+        cases l with
+        | nil => simp only [joinNL] at ih ⊢; rw [ih]
+        | cons q l' => simp only [joinNL] at ih ⊢; rw [← ih]; simp
+
+/-- the wrappers still have the bodies the model transcribes -/
+theorem wrapper_bodies_fixed : Gen.TextTables.wrapperBodies =
+    [("MText.plain_text", "(self, split=False, fast=True) if fast: ;;     return fast_plain_mtext(self.text, split=split) ;; else: ;;     return plain_mtext(self.text, split=split)"), ("MText.all_columns_plain_text", "(self, split=False) def merged_content(): ;;     content = [fast_plain_mtext(self.text, split=False)] ;;     if self.has_columns: ;;         for c in self._columns.linked_columns: ;;             content.append(c.plain_text(split=False)) ;;     return ''.join(content) ;; def split_content(): ;;     content = fast_plain_mtext(self.text, split=True) ;;     if self.has_columns: ;;         if content and content[-1] == '': ;;             content.pop() ;;         for c in self._columns.linked_columns: ;;             content.extend(c.plain_text(split=True)) ;;             if content and content[-1] == '': ;;                 content.pop() ;;     return content ;; if split: ;;     return split_content() ;; else: ;;     return merged_content()")] := by rfl
+
+/-! ## final round: `scale_mtext_inline_commands` - what it does (model `scaleSegs`, the scaled numbers symbolic)
+
+The function splits the content at the TEXT `\H` (not at the command `\H` as the parser reads it) and rescales
+the run of digits and points behind it unless an `x` follows. -/
+
+/-- content without a backslash is returned unchanged -/
+theorem scale_identity_without_backslash (s : Str) (h : ∀ c ∈ s, c ≠ '\\') : scaleSegs s = [.text s] :=
+  scale_no_backslash s h
+
+/-- behind each `\H`: a relative factor (`…x`) and everything behind the number is kept; the number is replaced
+    when `float()` accepts it and DELETED when it is non-empty but invalid (".", "1..2") -/
+theorem scale_part_law (part : Str) :
+    unscale (scalePart part) =
+      if validNumber (part.takeWhile isHeightChar) ∨ (part.drop (part.takeWhile isHeightChar).length).head? = some 'x'
+      then '\\' :: 'H' :: part
+      else '\\' :: 'H' :: part.drop (part.takeWhile isHeightChar).length :=
+  scalePart_unscale part
+
+/-- the escaped backslash: in `\\H2;a` the parser reads an escaped backslash and the TEXT `H2;a`
+    (`plain_mtext` is `\H2;a`), but the function rescales the `2`: the visible text changes -/
+theorem scale_rescales_visible_text (sp : Special) :
+    scaleSegs "\\\\H2;a".toList = [.text "\\".toList, .text "\\H".toList, .scaled "2".toList, .text ";a".toList] ∧
+    slowLoop sp "\\\\H2;a".toList = "\\H2;a".toList := by
+  constructor
+  · simp [scaleSegs, splitH, scalePart, isHeightChar, isDigit, validNumber]
+  · have e : "\\\\H2;a".toList = '\\' :: '\\' :: ['H', '2', ';', 'a'] := rfl
+    rw [e, slowLoop_esc sp '\\' _ (Or.inl rfl)]
+    have hs : ∀ (c : Char) (r : Str), c ≠ '%' → specialAt sp c r = none := fun c r h => by simp [specialAt, h]
+    rw [slowLoop_char sp 'H' _ (by decide) (by decide) (by decide) (by decide) (hs _ _ (by decide)) (by decide),
+      slowLoop_char sp '2' _ (by decide) (by decide) (by decide) (by decide) (hs _ _ (by decide)) (by decide),
+      slowLoop_char sp ';' _ (by decide) (by decide) (by decide) (by decide) (hs _ _ (by decide)) (by decide),
+      slowLoop_char sp 'a' _ (by decide) (by decide) (by decide) (by decide) (hs _ _ (by decide)) (by decide), slowLoop_nil]
+    rfl
+
+#guard unscale (scaleSegs "a\\H2.5;b\\H3x;c".toList) = "a\\H2.5;b\\H3x;c".toList
+#guard unscale (scaleSegs "\\H.;a".toList) = "\\H;a".toList      -- the invalid number "." is deleted
+
+/-! ## final round: `split_mtext_string` and caret pairs
+
+The code comment says "do not split chunks at '^'".  What holds exactly: if the content has no two adjacent
+carets, NO chunk except the last ends in a caret (a caret and the character it encodes stay together), for
+every size ≥ 2 and every length; with two adjacent carets at a chunk boundary the shortened chunk still ends
+in a caret and the pair `^^` is separated (counterexample theorem; joining restores the content, `split_join`). -/
+
+theorem split_no_caret_at_chunk_end (size : Nat) (h : 2 ≤ size) (s : Str) (hs : noDoubleCaret s = true) :
+    ∀ c ∈ (splitMText size h s).dropLast, c.getLast? ≠ some '^' :=
+  Text.split_no_caret_at_chunk_end size h s hs
+
+/-- the hypothesis is needed: `split_mtext_string("a^^b", 3) == ["a^", "^b"]` -/
+theorem split_separates_caret_pair :
+    splitMText 3 (by decide) "a^^b".toList = ["a^".toList, "^b".toList] ∧ noDoubleCaret "a^^b".toList = false := by
+  constructor
+  · rw [splitMText.eq_def]; simp
+    rw [splitMText.eq_def]; simp
+  · decide
+
+#guard noDoubleCaret "a^Ib^ c^".toList
+
+/-! ## final round: completeness on the argument-free sub-grammar
+
+`argFree d`: characters (control characters too), braces, `\\ \{ \}`, `\P`, the stroke switches `\L \l \O \o \K \k`,
+`\X`, `\N`, a backslash at the end - everything of the property's sub-grammar except commands with arguments
+(and no `%`).  On this sub-grammar the agreement of the two decoders is characterised EXACTLY by the syntactic
+predicate `argFreeAgree` (no control character other than LF, no `\N`, no backslash at the end): an `iff`, so
+`fast_eq_slow` (soundness of `agreeClass`) is complemented by completeness here; it extends
+`fast_eq_slow_iff_no_control` from the backslash-free fragment to escapes, paragraph breaks and switches. -/
+
+/-- one ordinary character: the decoders agree on `c :: r` iff `c` is no control character other than LF and
+    they agree on `r` (the step that makes differences impossible to repair later) -/
+theorem decoders_char_step (sp : Special) (c : Char) (r : Str) (hb : c ≠ '\\') (hp : c ≠ '%') :
+    (slowLoop sp (c :: r) = fastLoop sp (c :: r)) ↔ ((32 ≤ c.toNat ∨ c = '\n') ∧ slowLoop sp r = fastLoop sp r) :=
+  char_step sp c r hb hp
+
+theorem fast_eq_slow_iff_arg_free (sp : Special) (s : Str) (h : argFree (caretDecode s) = true) :
+    plainMTextStr sp s = .ok (fastPlainMText sp s) ↔ argFreeAgree (caretDecode s) = true := by
+  rw [fast_eq_slow_iff]
+  exact argFree_iff sp _ h
+
+/-- the list forms, WITHOUT the side condition of `fast_eq_slow_lines`: on the argument-free sub-grammar a LF is
+    never a word character (`argFree_no_lf_char`), so `plain_mtext(s, split=True) == fast_plain_mtext(s, split=True)`
+    whenever the joined forms agree -/
+theorem fast_eq_slow_lines_arg_free (sp : Special) (s : Str) (h : argFree (caretDecode s) = true)
+    (ha : argFreeAgree (caretDecode s) = true) :
+    plainMText sp s = .ok (splitNL (fastPlainMText sp s)) := by
+  rw [plain_lines_spec]
+  unfold fastPlainMText
+  rw [← (argFree_iff sp _ h).mpr ha, ← slowItems_getD, splitNL_getD _ (argFree_no_lf_char sp _ h)]
+
+#guard argFree "a{\\Lb\\l}\\P\\\\c\\{\\Nd\t\\".toList && !argFreeAgree "a\\Nb".toList && !argFreeAgree "a\\".toList
+  && argFreeAgree "a{\\Lb\\l}\\P\\\\c\\{ d\n".toList && !argFree "\\H1;".toList && !argFree "50%".toList
 
 /-! ## MTextEditor round trip: the decoders return exactly the words the builder was given
 
